@@ -230,7 +230,8 @@ def stepItem (cfg : Cfg N K) (L : Learner W) (o : Opts) (fail : Option Nat)
     (r : Run N K W) (it : Item N) : Run N K W :=
   if r.err.isSome then r else
   let f := flagsOf cfg r.st it
-  if skip o f then r else
+  -- skipped: the existing results stay registered with the results object (`_append_key`, fix 027a939)
+  if skip o f then { r with st := register it.s it.d r.st } else
   let w := strategyFit L it
   callEst fail (.fit it) r
     |> cond (needStrat o f) (saveStrat cfg it w)
@@ -339,12 +340,10 @@ def Part.str : Part → String
 def hddCfg (N : Type) : Cfg N (N × N × Part × Nat) :=
   ⟨fun s d p f => (s, d, p, f), fun s d f => (s, d, .train, f), true⟩
 
-/-- `RAMResults._generate_key`: `f"{strategy_name}_{dataset_name}_{train_or_test}_{cv_fold}"` -/
-def ramKey (s d : String) (p : Part) (f : Nat) : String :=
-  s ++ "_" ++ d ++ "_" ++ p.str ++ "_" ++ toString f
-
-def ramCfg : Cfg String String :=
-  ⟨ramKey, fun s d f => ramKey s d .train f, false⟩
+/-- `RAMResults._generate_key`: the tuple `(strategy_name, dataset_name, train_or_test, str(cv_fold))`
+(fix 23c2285; before it the key was the underscore-joined string, which is not injective) -/
+def ramCfg (N : Type) : Cfg N (N × N × Part × Nat) :=
+  ⟨fun s d p f => (s, d, p, f), fun s d f => (s, d, .train, f), false⟩
 
 /-! ### `Orchestrator.__init__` validation (string names) -/
 
